@@ -631,7 +631,8 @@ fn subset_model(plan: &Value) -> Value {
         }
         for (a, &pa) in parents.iter().enumerate() {
             *count += 1;
-            if got[a].to_bits() != parent[pa].to_bits() {
+            // (not bit-for-bit: group-contribution molar weights are sums over a hash map, whose order varies from run to run)
+            if !((got[a] - parent[pa]).abs() <= 1e-12 * parent[pa].abs()) {
                 fails.push(json!({"model": model, "idx": idx, "position": a, "observable": obs, "got": got[a], "parent_component": pa, "expected": parent[pa]}));
             }
         }
@@ -639,7 +640,7 @@ fn subset_model(plan: &Value) -> Value {
     for cfg in configs::all(true).into_iter().chain(configs::literal()) {
         let mw = cfg.model.molar_weight().to_reduced().to_vec();
         // (the observable must tell the components apart)
-        if (0..mw.len()).any(|i| (0..i).any(|j| mw[i] == mw[j])) {
+        if (0..mw.len()).any(|i| (0..i).any(|j| (mw[i] - mw[j]).abs() <= 1e-6 * mw[i].abs())) {
             continue;
         }
         models.push(cfg.name.clone());
